@@ -643,6 +643,24 @@ set_memory_constraints(void)
     in_granul = 32768u;
     out_granul = 900000u;
   }
+#ifdef KJN_LBZIP2_VERIF
+  /* Verification hook H1: let a harness place input-block and output-buffer
+     boundaries at arbitrary positions of a small compressed stream.  Only
+     decompression is affected; compression chunking is part of the format
+     of the output and stays as it is. */
+  if (decompress) {
+    const char *e;
+
+    if ((e = getenv("LBZIP2_VERIF_IN_GRANUL")) != NULL && atol(e) >= 4)
+      in_granul = (size_t)atol(e) / 4u * 4u;
+    if ((e = getenv("LBZIP2_VERIF_OUT_GRANUL")) != NULL && atol(e) >= 1)
+      out_granul = (size_t)atol(e);
+    if ((e = getenv("LBZIP2_VERIF_IN_SLOTS")) != NULL && atol(e) >= 1)
+      total_in_slots = (unsigned)atol(e);
+    if ((e = getenv("LBZIP2_VERIF_OUT_SLOTS")) != NULL && atol(e) >= 1)
+      total_out_slots = (unsigned)atol(e);
+  }
+#endif
 }
 
 
